@@ -361,6 +361,7 @@ def check(prop, tier, base, a):
         from . import shrink as SH
         os.makedirs(os.path.join(VERIF, "replays"), exist_ok=True)
         per = max(10.0, (60.0 if tier == "quick" else 240.0) / len(new_viol))
+        unconfirmed = 0
         for sig, e in new_viol:
             plan = e["plan"]
             try:
@@ -389,7 +390,7 @@ def check(prop, tier, base, a):
             if pr.returncode != 1:
                 print("HARNESS-NONDETERMINISM violation %s did not reproduce in a fresh interpreter (exit %d)\n%s"
                       % (sig, pr.returncode, (pr.stdout + pr.stderr)[-800:]))
-                status = 2
+                unconfirmed += 1
                 continue
             print("VIOLATION property=%s replay=%s" % (prop, path))
             print("  signature=%s seen_in=%d/%d runs" % (sig, total["violcount"][sig], total["n"]))
@@ -397,6 +398,11 @@ def check(prop, tier, base, a):
             replay_paths.append(path)
             if status == 0:
                 status = 1
+        if unconfirmed and status == 0:
+            # violations were seen, but none of them replays in a fresh interpreter: nothing this batch says can be believed.
+            # (When at least one violation does replay exactly, that one is reported - exit 1 - and the others are listed above:
+            #  typically the changed code keeps state in the process across runs, which a fresh interpreter does not have.)
+            status = 2
 
     # ---- starved probes (thorough only)
     starved = [p for p in world.PROBES if not total["probes"].get(p)]
